@@ -39,7 +39,7 @@ var propFlag = flag.String("prop", "C19", "which property's direct oracle is eva
 
 func genCase(r *gen.Rand, i int) any {
 	ks := strings.Split(*kindsFlag, ",")
-	return Case{K: gen.Pick(r, ks), Seed: r.U64()}
+	return Case{K: gen.Pick(r, ks), Seed: r.U64() ^ ro.SeedMix()}
 }
 
 // ---------------------------------------------------------------------------------------------
